@@ -78,7 +78,15 @@ fn parse_lstr(iter: &mut TSIterator) -> Result<Option<Pattern>, Error> {
             }
         }
         Some(TokenTree::Group(group)) if group.delimiter() == Delimiter::None => {
-            parse_lstr(&mut group.stream().into_iter())
+            let iter = &mut group.stream().into_iter();
+            let patt = parse_lstr(iter)?;
+
+            // the group must only contain the literal,
+            // a `$pat` can capture more than that (e.g.: `"a"..=CONSTANT`)
+            match iter.next() {
+                Some(x) => Err(Error::new(x.span(), &format!("{}\nFound: {}", IN_MSG, x))),
+                None => Ok(patt),
+            }
         }
         Some(TokenTree::Literal(lit)) => parse_literal(lit).map(Some),
         Some(x) => Err(Error::new(x.span(), &format!("{}\nFound: {}", IN_MSG, x))),
